@@ -42,7 +42,10 @@ def snap(o, depth=0, seen=None):
         return (type(o).__name__, tuple(snap(x, depth + 1) for x in o))
     if isinstance(o, (set, frozenset)):
         return ("set", tuple(sorted(repr(snap(x, depth + 1)) for x in o)))
-    if isinstance(o, (str, int, float, bool)) or o is None:
+    if isinstance(o, (int, float, bool)):
+        # type-sensitive: 1000 and 1000.0 compare equal but are observably different values
+        return ("num", type(o).__name__, o)
+    if isinstance(o, str) or o is None:
         return o
     if hasattr(o, "__dict__"):
         return (type(o).__name__, tuple((k, snap(v, depth + 1)) for k, v in sorted(vars(o).items())))
@@ -189,6 +192,12 @@ def shard(tier, seed, shard, nshards):
         if it is None:
             continue
         cls, spec, mode, ext, rnd = it
+        if mode == "metrics" and rnd.random() < 0.3 and "clock_frequency" in (spec.extra or ""):
+            # a clock frequency written in scientific notation reaches the compiler as a float
+            import re
+            spec = spec.clone()
+            spec.extra = re.sub(r"clock_frequency: (\d+)\b", r"clock_frequency: \1.0e+0", spec.extra)
+            spec.tags = list(spec.tags) + ["float-clock-frequency"]
         t = check_objects(st, cls, spec, mode)
         history.append((spec, mode, t))
     # renamed twins: the same index expressions on differently named ranks, compiled right
